@@ -4,9 +4,14 @@ import WebrtcVerif.Model.Rtx
 /-! Driver handler for C26 (RTX unwrapping).
   ops:
     one <mtu> <pt> <ssrc> <start> <carried> <readLen> <n> <image>
-    seq <mtu> <pt> <ssrc> <start> { f <carried> <n> <image> | r <readLen> | c }*      (c = RTPReceiver.Stop; only reads may follow)
+    seq <mtu> <pt> <ssrc> <start> { f <carried> <n> <image> | r <readLen> | p <pkthex> | s <ssrc> | c }*
+  p       a packet arrives on the primary stream (TrackRemote.Read returns it once no unwrapped RTX packet
+          waits; checkAndUpdateTrack then adopts its payload type if the hook's MediaEngine knows a codec:
+          every payload type except 7, 15, …, 127)
+  s       receiveForRid binds the primary stream again, with this SSRC
+  c       RTPReceiver.Stop; no repair read may follow
   mtu     length of the pooled buffers the repair reader fills (SettingEngine receive MTU)
-  pt/ssrc payload type and SSRC of the primary stream (the track)
+  pt/ssrc payload type and SSRC of the primary stream (the track) at the start
   start   1: reader started by receiveForRtx, 0: by the first TrackRemote.Read (same observable behaviour)
   carried 1: the repair interceptor hands over non-nil attributes (they must survive)
   n       what the repair interceptor's Read returns
@@ -15,6 +20,8 @@ import WebrtcVerif.Model.Rtx
   output, per TrackRemote.Read:
     none                                                           the read went to the primary stream
     eof                                                            the receiver is stopped
+    pri | pri-too-short | pri-unknown-codec  <len> <fnv64> <first ≤96 bytes hex>     a primary packet (and
+                                                                   checkAndUpdateTrack's verdict)
     rtx <len> <fnv64> <first ≤96 bytes hex> <carried> <rtxPT> <rtxSeq> <rtxSsrc>
   `one` prints that of its single read, `seq` prints `seq` and its reads separated by `|`;
   `panic` when the model says the reader goroutine dies.
@@ -51,6 +58,8 @@ structure Cfg where
 inductive Step where
   | feed (carried : Bool) (n : Nat) (img : Bs)
   | read (readLen : Nat)
+  | primary (pkt : Bs)
+  | rebind (ssrc : Nat)
   | close
 
 def parseCfg : List String → Option (Cfg × List String)
@@ -76,6 +85,15 @@ def parseSteps (mtu : Nat) : Nat → List String → Option (List Step)
       let l ← l.toNat?
       let tl ← parseSteps mtu fuel rest
       pure (.read l :: tl)
+  | fuel + 1, "p" :: pkt :: rest => do
+      let pkt ← Wire.bytesOfHex pkt
+      let tl ← parseSteps mtu fuel rest
+      pure (.primary pkt :: tl)
+  | fuel + 1, "s" :: ssrc :: rest => do
+      let ssrc ← ssrc.toNat?
+      if ssrc ≥ 4294967296 then none
+      let tl ← parseSteps mtu fuel rest
+      pure (.rebind ssrc :: tl)
   | fuel + 1, "c" :: rest => do
       let tl ← parseSteps mtu fuel rest
       if tl.any (fun s => match s with | .feed .. => true | _ => false) then none
@@ -94,33 +112,41 @@ def parseOp (args : List String) : Option (Cfg × List Step) :=
   | "seq" :: rest => do
       let (cfg, rest) ← parseCfg rest
       let st ← parseSteps cfg.mtu (rest.length + 1) rest
+      if (st.filter (fun s => match s with | .primary _ => true | _ => false)).length > 1000 then none
       pure (cfg, st)
   | _ => none
 
-def showOut : ReadOut → String
-  | .eof => "eof"
-  | .primary => "none"
-  | .rtx it => showItem it
+/-- the MediaEngine of the hook (`VerifRTXCodecKnown`) -/
+def codecKnown (p : Byte) : Bool := p.toNat < 128 && p.toNat % 8 != 7
 
-/-- run the steps through the model; `none` = reader goroutine panicked -/
-def runSteps (cfg : Cfg) : List Step → Bool → List Item → List String → Option (List String)
-  | [], _, _, acc => some acc.reverse
-  | .feed c n img :: rest, closed, q, acc =>
-    match feed q img n (b cfg.pt) cfg.ssrc c with
-    | none => none
-    | some q' => runSteps cfg rest closed q' acc
-  | .read l :: rest, closed, q, acc =>
-    let (r, q') := trackReadFull closed q l
-    runSteps cfg rest closed q' (showOut r :: acc)
-  | .close :: rest, _, q, acc => runSteps cfg rest true q acc
+def showPri (kind : String) (pkt : Bs) (len : Nat) : String :=
+  let v := pkt.take len
+  s!"{kind} {v.length} {(fnv64 v).toNat} {Wire.hexOfBytes (v.take headLen)}"
+
+def showObs : Obs → String
+  | .eof => "eof"
+  | .none => "none"
+  | .rtx it len => showItem { it with pkt := it.pkt.take len }
+  | .pri pkt len => showPri "pri" pkt len
+  | .priTooShort pkt len => showPri "pri-too-short" pkt len
+  | .priUnknownCodec pkt len => showPri "pri-unknown-codec" pkt len
+
+def evOf : Step → Ev
+  | .feed c n img => .feed { buf := img, n, carried := c }
+  | .read l => .read l
+  | .primary pkt => .primary pkt
+  | .rebind ssrc => .rebind ssrc
+  | .close => .stop
 
 def run (args : List String) : String :=
   match parseOp args with
   | none => "bad-op"
   | some (cfg, steps) =>
-    match runSteps cfg steps false [] [] with
+    match Rtx.run codecKnown { pt := b cfg.pt, ssrc := cfg.ssrc, q := [], prim := [], closed := false }
+        (steps.map evOf) with
     | none => "panic"
-    | some outs =>
+    | some (_, obs, _) =>
+      let outs := obs.map showObs
       match args with
       | "one" :: _ => String.intercalate " " outs
       | _ => if outs.isEmpty then "seq" else "seq " ++ String.intercalate " | " outs
@@ -149,8 +175,10 @@ def expectOf (cfg : Cfg) (img : Bs) (n : Nat) : Expect :=
   | none => if Rtp.tooShortForOSN s then .drop else .free
 
 /-- compare one observed read with the packet that must come out; the key names the first header
-    field that differs -/
-def checkDelivered (want : Bs) (a : Attrs) (carried : Bool) (readLen : Nat) (obs : List String) : String :=
+    field that differs. `oldPTs` / `oldSSRCs` are values the primary stream had earlier in the history:
+    a packet carrying one of those instead of the current one is reported as stale. -/
+def checkDelivered (want : Bs) (a : Attrs) (carried : Bool) (readLen : Nat) (oldPTs oldSSRCs : List Nat)
+    (obs : List String) : String :=
   match obs with
   | ["rtx", len, hash, head, c, rpt, rseq, rssrc] =>
     let w := want.take readLen
@@ -160,10 +188,18 @@ def checkDelivered (want : Bs) (a : Attrs) (carried : Bool) (readLen : Nat) (obs
       let wh := w.take headLen
       if len != toString w.length then "violated wrong-length"
       else if h.take 1 != wh.take 1 then "violated flags-changed"
-      else if (h.drop 1).take 1 != (wh.drop 1).take 1 then "violated wrong-payload-type-or-marker"
+      else if (h.drop 1).take 1 != (wh.drop 1).take 1 then
+        (match (h.drop 1).head?, (wh.drop 1).head? with
+         | some x, some y =>
+           if x.toNat / 128 == y.toNat / 128 && oldPTs.contains (x.toNat % 128) then "violated stale-payload-type"
+           else "violated wrong-payload-type-or-marker"
+         | _, _ => "violated wrong-payload-type-or-marker")
       else if (h.drop 2).take 2 != (wh.drop 2).take 2 then "violated wrong-sequence-number"
       else if (h.drop 4).take 4 != (wh.drop 4).take 4 then "violated timestamp-changed"
-      else if (h.drop 8).take 4 != (wh.drop 8).take 4 then "violated wrong-ssrc"
+      else if (h.drop 8).take 4 != (wh.drop 8).take 4 then
+        (match (h.drop 8).take 4 with
+         | [x, y, z, w] => if oldSSRCs.contains (rd32be x y z w) then "violated stale-ssrc" else "violated wrong-ssrc"
+         | _ => "violated wrong-ssrc")
       else if h != wh then "violated header-or-payload-changed"
       else if hash != toString (fnv64 w).toNat then "violated wrong-payload"
       else if rpt != toString a.rtxPT || rseq != toString a.rtxSeq || rssrc != toString a.rtxSsrc then
@@ -171,6 +207,7 @@ def checkDelivered (want : Bs) (a : Attrs) (carried : Bool) (readLen : Nat) (obs
       else if c != Wire.boolTok carried then "violated attributes-lost"
       else "ok"
   | ["none"] => "violated rtx-not-delivered"
+  | "pri" :: _ | "pri-too-short" :: _ | "pri-unknown-codec" :: _ => "violated rtx-not-delivered"
   | _ => "bad-judge"
 
 def splitReads (out : List String) : List (List String) :=
@@ -180,28 +217,55 @@ def splitReads (out : List String) : List (List String) :=
     | t :: rest, cur, acc => go rest (t :: cur) acc
   go out [] []
 
-/-- walk a history: `pending` are the packets that must come out, oldest first; once something
-    unconstrained happened (a `free` packet, or more than the channel holds waiting) the rest of the
-    history is only checked for crashes -/
-def judgeSteps (cfg : Cfg) : List Step → List (Bs × Attrs × Bool) → List (List String) → String
-  | [], _, _ => "ok"
-  | .close :: _, _, _ => "ok"          -- the property does not speak about a stopped receiver
-  | .feed c n img :: rest, pending, obs =>
-    match expectOf cfg img n with
+/-- what the judge knows about the primary stream while it walks a history: its current payload type
+    and SSRC (those of `cfg`) and the ones it had before -/
+structure JSt where
+  cfg : Cfg
+  oldPTs : List Nat
+  oldSSRCs : List Nat
+  pending : List (Bs × Attrs × Bool)
+
+/-- Walk a history. `pending` are the packets that must come out, oldest first, each computed with the
+    payload type and SSRC the primary stream had when the packet arrived on the repair stream. The
+    primary stream's payload type is read off the OBSERVED primary packets (`pri …` with no error); its
+    SSRC changes with `s`. Once something unconstrained happened (a `free` packet, more than the channel
+    holds waiting, a primary packet the track could not digest, Stop) the rest of the history is only
+    checked for crashes. -/
+def judgeSteps : JSt → List Step → List (List String) → String
+  | _, [], _ => "ok"
+  | _, .close :: _, _ => "ok"          -- the property does not speak about a stopped receiver
+  | st, .primary _ :: rest, obs => judgeSteps st rest obs
+  | st, .rebind ssrc :: rest, obs =>
+    judgeSteps { st with cfg := { st.cfg with ssrc := ssrc }, oldSSRCs := st.cfg.ssrc :: st.oldSSRCs } rest obs
+  | st, .feed c n img :: rest, obs =>
+    match expectOf st.cfg img n with
     | .free => "ok"
-    | .drop => judgeSteps cfg rest pending obs
+    | .drop => judgeSteps st rest obs
     | .deliver pkt a =>
-      if pending.length ≥ chanCap then "ok" else judgeSteps cfg rest (pending ++ [(pkt, a, c)]) obs
-  | .read l :: rest, pending, obs =>
+      if st.pending.length ≥ chanCap then "ok"
+      else judgeSteps { st with pending := st.pending ++ [(pkt, a, c)] } rest obs
+  | st, .read l :: rest, obs =>
     match obs with
     | [] => "bad-judge"
     | o :: obs' =>
-      match pending with
-      | [] => if o == ["none"] then judgeSteps cfg rest [] obs'
-              else "violated short-rtx-delivered"
+      match st.pending with
+      | [] =>
+        match o with
+        | ["none"] => judgeSteps st rest obs'
+        | ["pri", _, _, head] =>
+          match Wire.bytesOfHex head with
+          | some (_ :: b1 :: _) =>
+            let p := b1.toNat % 128
+            if p == st.cfg.pt then judgeSteps st rest obs'
+            else judgeSteps { st with cfg := { st.cfg with pt := p }, oldPTs := st.cfg.pt :: st.oldPTs } rest obs'
+          | _ => "ok"
+        | "pri-too-short" :: _ => "ok"
+        | "pri-unknown-codec" :: _ => "ok"
+        | "rtx" :: _ => "violated short-rtx-delivered"
+        | _ => "bad-judge"
       | (pkt, a, c) :: pending' =>
-        let v := checkDelivered pkt a c l o
-        if v == "ok" then judgeSteps cfg rest pending' obs' else v
+        let v := checkDelivered pkt a c l (st.oldPTs.filter (· != st.cfg.pt)) (st.oldSSRCs.filter (· != st.cfg.ssrc)) o
+        if v == "ok" then judgeSteps { st with pending := pending' } rest obs' else v
 
 def judge (args out : List String) : String :=
   match parseOp args with
@@ -217,6 +281,6 @@ def judge (args out : List String) : String :=
         | _, _ => []
       let nreads := (steps.filter (fun s => match s with | .read _ => true | _ => false)).length
       if obs.length != nreads && !(nreads == 0 && obs == [[]]) then "bad-judge"
-      else judgeSteps cfg steps [] (if nreads == 0 then [] else obs)
+      else judgeSteps { cfg, oldPTs := [], oldSSRCs := [], pending := [] } steps (if nreads == 0 then [] else obs)
 
 end WebrtcVerif.Drv.C26
